@@ -19,6 +19,7 @@ Dom == [
   dispo    |-> {"none", "inline", "attachment"},
   body     |-> {"no-head", "head-at-0", "head-early", "head-late", "head-straddles", "two-heads", "HEAD-upper", "empty", "big-no-head"},
   first    |-> {"all", "tiny", "half"},                        \* segmentation of the backend body
+  cenc     |-> {"none", "gzip"},                               \* Content-Encoding of the backend's body
   banner   |-> BOOLEAN,
   shim     |-> BOOLEAN ]
 
@@ -38,14 +39,37 @@ ScriptAllowed(c) == c.shim /\ HtmlDoc(c)
 
 \* out.kind: "same" | "script" (original with the script inserted once, immediately after the first <head>,
 \* nothing else changed) | "frame" (banner frame page) | "other"
-\* out.hdrs_same: end-to-end headers unchanged; out.frame_ok: embeds the requested URL, uncacheable, same-origin-frameable
+\* out.hdrs_same: end-to-end headers unchanged; out.frame_ok: embeds the requested URL, uncacheable, same-origin-frameable,
+\* and carries no Content-Encoding of the replaced body; out.repr_same: the headers that say how to read the body
+\* (Content-Type, Content-Encoding) are the backend's - an "original body" under another coding is not the original
 InjectOK(c, out) ==
   \/ Unjudged(c)
   \/ /\ out.kind \in {"same", "script", "frame"}
      /\ (NotHtml(c) => out.kind = "same" /\ out.hdrs_same)          \* everything that is not HTML is untouched
+     /\ (out.kind = "same" => out.repr_same)
      /\ (out.kind = "script" => ScriptAllowed(c))
      /\ (out.kind = "frame" => FrameAllowed(c) /\ out.frame_ok)
      /\ (~c.banner /\ out.kind = "same" /\ ~c.shim => out.hdrs_same)  \* nothing enabled: nothing altered
+
+\* The decision predicates partition every request/response field into strata; the case generator takes one
+\* representative combination per element of the product of strata, so every branch combination of the decision
+\* model is exercised (random sampling of the raw class product reaches "banner, GET, Accept html, 200, HTML,
+\* not attachment" about twice in a thousand cases).
+Strata == [
+  method  |-> <<{"GET"}, Dom.method \ {"GET"}>>,
+  accept  |-> <<{v \in Dom.accept : AcceptsHtml([accept |-> v])}, {v \in Dom.accept : ~AcceptsHtml([accept |-> v])}>>,
+  status  |-> <<{200}, Dom.status \ {200}>>,
+  ctype   |-> <<{v \in Dom.ctype : HtmlDoc([ctype |-> v])}, {v \in Dom.ctype : NotHtml([ctype |-> v])}, {v \in Dom.ctype : Unjudged([ctype |-> v])}>>,
+  dispo   |-> <<{"attachment"}, Dom.dispo \ {"attachment"}>>,
+  cenc    |-> <<{"none"}, {"gzip"}>> ]
+\* how a request comes to be "already framed": not at all, or through exactly one of the three headers
+FramedStrata == <<
+  [mode |-> {v \in Dom.mode : ~AlreadyFramed([mode |-> v, dest |-> "none", referer |-> "none"])},
+   dest |-> {v \in Dom.dest : ~AlreadyFramed([mode |-> "none", dest |-> v, referer |-> "none"])},
+   referer |-> {v \in Dom.referer : ~AlreadyFramed([mode |-> "none", dest |-> "none", referer |-> v])}],
+  [mode |-> {v \in Dom.mode : AlreadyFramed([mode |-> v, dest |-> "none", referer |-> "none"])}, dest |-> Dom.dest, referer |-> Dom.referer],
+  [mode |-> Dom.mode, dest |-> {v \in Dom.dest : AlreadyFramed([mode |-> "none", dest |-> v, referer |-> "none"])}, referer |-> Dom.referer],
+  [mode |-> Dom.mode, dest |-> Dom.dest, referer |-> {v \in Dom.referer : AlreadyFramed([mode |-> "none", dest |-> "none", referer |-> v])}] >>
 
 \* sanity lemmas of the decision model over the whole class product
 Cases == [method : Dom.method, accept : Dom.accept, mode : Dom.mode, dest : Dom.dest, referer : Dom.referer, status : Dom.status,
